@@ -353,6 +353,43 @@ def clock_taint(prog, res):
     res.check(not bad, R, "no-other-impure-source", "lib/dictBuilder", "no PRNG, wall clock, environment or thread-id call in the trainers", "trainers call %s" % sorted(bad))
 
 
+def guarded_minuend(prog, res):
+    """T8 (contradiction rule): in the trainers' context initialisers a size is compared with the d-mer size S (`X < S` is
+    refused) and S is then subtracted from a size to count the d-mers.  The value S is subtracted from must be a value that
+    was compared with S: otherwise the guard protects another quantity (total samples vs training part) and the count wraps."""
+    R = "T8.guarded-minuend"
+    n = 0
+    for name in ("COVER_ctx_init", "FASTCOVER_ctx_init"):
+        f = prog.fn(name)
+        gs = [g for g in guards.guard_sites(f) if g.cond is not None]
+        # guards of the form  A < S  (failure when smaller)
+        guarded = {}      # shape of S -> set of names of A
+        for g in gs:
+            c = strip_casts(f.resolve_x(g.cond))
+            if c is None or c.get("k") != "bin" or c.get("op") not in ("<", ">", "<=", ">="):
+                continue
+            l, r = strip_casts(f.resolve_x(c["lhs"])), strip_casts(f.resolve_x(c["rhs"]))
+            small, big = (l, r) if c["op"] in ("<", "<=") else (r, l)
+            if small is not None and small.get("k") == "ref" and big is not None:
+                guarded.setdefault(f.shape(big, depth=3), set()).add(small["n"])
+        for b, i, r in f.roots():
+            for x in walk(r):
+                if x.get("k") == "bin" and x.get("op") == "-":
+                    a, sub = strip_casts(f.resolve_x(x["lhs"])), strip_casts(f.resolve_x(x["rhs"]))
+                    if a is None or sub is None or a.get("k") != "ref" or const_val(sub) is not None:
+                        continue
+                    sh = f.shape(sub, depth=3)
+                    if sh not in guarded:
+                        continue
+                    n += 1
+                    res.check(a["n"] in guarded[sh], R, "%s:%s@%s" % (name, a["n"], x.get("l") or r.get("l")), f.loc,
+                              "`%s - S` is protected by a refusal of `%s < S`" % (a["n"], a["n"]),
+                              "%s subtracts the d-mer size from `%s`, but the refusal of too-small inputs compares %s with it: when `%s` is smaller "
+                              "(empty training part with a split point below 1) the d-mer count wraps to ~2^64 and the segment selection reads far "
+                              "beyond the samples" % (name, a["n"], sorted(guarded[sh]), a["n"]))
+    res.need(R, 2)
+
+
 def run(tier):
     res = Result("C18", tier)
     tus, info = extract(["dictBuilder", "compress", "common"])
@@ -364,6 +401,7 @@ def run(tier):
     finalize_rules(prog, res)
     trainer_rules(prog, res)
     epochs_within_corpus(prog, res)
+    guarded_minuend(prog, res)
     best_rules(prog, res)
     worker_globals(prog, res)
     alloc_rules(prog, res)
